@@ -45,6 +45,8 @@ pub struct ExecShared {
     pub stale_wakes: u64,
     /// F-ready: gates that completed in their very first poll
     pub ready_now: u64,
+    /// F-yield: gates that woke themselves inside their first poll
+    pub yields: u64,
     pub spawn_queue: Vec<Spawned>,
     pub current: u32,
     pub active: bool,
@@ -57,6 +59,7 @@ pub static EXEC: Mutex<ExecShared> = Mutex::new(ExecShared {
     gen: Vec::new(),
     stale_wakes: 0,
     ready_now: 0,
+    yields: 0,
     spawn_queue: Vec::new(),
     current: 0,
     active: false,
@@ -165,14 +168,37 @@ impl<T> Future for Gate<T> {
                     lock().push(task, Ph::Arrive, self.ev, self.occ, self.dg);
                     return Poll::Ready(self.pass(task));
                 }
+                // F-yield: the future wakes itself from inside this poll, returns Pending and is complete at its next poll
+                // (`yield_now` style). Nobody else will ever wake it: a wake-up that arrives WHILE the task is being polled must
+                // lead to another poll.
+                let yield_now = {
+                    let g = lock();
+                    g.plan.yield_pm > 0
+                        && crate::rng::hash_all(&[g.plan.ready_seed ^ 0x5bd1_e995_9e37_79b9, self.ev as u64, self.occ as u64]) % 1000 < g.plan.yield_pm as u64
+                        && g.dep_ok(self.ev, self.occ)
+                        && !g.plan.stuck.contains(&(self.ev, self.occ))
+                };
                 let (gid, task) = {
                     let mut e = ex();
                     let task = e.current;
-                    e.gates.push(GateInfo { ev: self.ev, occ: self.occ, state: GateState::Pending, waker: Some(cx.waker().clone()), task });
+                    let (state, waker) = if yield_now { (GateState::Released, None) } else { (GateState::Pending, Some(cx.waker().clone())) };
+                    e.gates.push(GateInfo { ev: self.ev, occ: self.occ, state, waker, task });
+                    if yield_now {
+                        e.yields += 1;
+                    }
                     ((e.gates.len() - 1) as u32, task)
                 };
                 self.gid = Some(gid);
-                lock().push(task, Ph::Arrive, self.ev, self.occ, self.dg);
+                {
+                    let mut g = lock();
+                    g.push(task, Ph::Arrive, self.ev, self.occ, self.dg);
+                    if yield_now {
+                        g.push(task, Ph::Release, self.ev, self.occ, gid as u64);
+                    }
+                }
+                if yield_now {
+                    cx.waker().wake_by_ref();
+                }
                 Poll::Pending
             }
             Some(gid) => {
@@ -359,6 +385,7 @@ pub struct AsyncRun<R> {
     pub cancel_with_live_tasks: bool,
     pub stale_wakes: u64,
     pub ready_now: u64,
+    pub yields: u64,
 }
 
 pub const ASYNC_STEP_CAP: u64 = 20_000;
@@ -395,6 +422,7 @@ pub fn run_root<R: 'static>(mk: impl FnOnce() -> Pin<Box<dyn Future<Output = R> 
         e.gen.clear();
         e.stale_wakes = 0;
         e.ready_now = 0;
+        e.yields = 0;
         e.spawn_queue.clear();
         e.current = 0;
         e.active = true;
@@ -420,6 +448,7 @@ pub fn run_root<R: 'static>(mk: impl FnOnce() -> Pin<Box<dyn Future<Output = R> 
                 cancel_with_live_tasks: false,
                 stale_wakes: 0,
                 ready_now: 0,
+                yields: 0,
             };
         }
     };
@@ -666,9 +695,11 @@ pub fn run_root<R: 'static>(mk: impl FnOnce() -> Pin<Box<dyn Future<Output = R> 
     let value = out_cell.borrow_mut().take();
     let stale_wakes = ex().stale_wakes;
     let ready_now = ex().ready_now;
+    let yields = ex().yields;
     AsyncRun {
         stale_wakes,
         ready_now,
+        yields,
         end: end.unwrap_or(AsyncEnd::Hang),
         value,
         decisions: std::mem::take(&mut chooser.recorded),
